@@ -27,11 +27,12 @@ Definition hip_dec (wire : list Z) (o : option name) (endp cur : nat) : res (lis
   do srv <- dec_rows wire o (S (endp - snd key)) [FName true] endp (snd key);
   Ok ([VS (VB (fst hit)); VS (VI (fst alg)); VS (VB (fst key)); VL (fst srv)], snd srv).
 
-(* constructor: hit at most 255 octets, algorithm uint8, key bytes, servers names *)
+(* constructor: hit at most 255 octets, algorithm uint8, key at most 65535 octets (fix f9231d5),
+   servers names *)
 Definition hip_valid (vs : list val) : bool :=
   match vs with
   | [VS (VB hit); VS (VI alg); VS (VB key); VL srv] =>
-      (zlen hit <=? 255) && (0 <=? alg) && (alg <=? 255)
+      (zlen hit <=? 255) && (0 <=? alg) && (alg <=? 255) && (zlen key <=? 65535)
       && forallb (valid_row [FName true]) srv
   | _ => false
   end.
